@@ -4,19 +4,27 @@
  * fibers (client assumption of the property: exactly `count` participating fibers, all of
  * them doing the same number of rounds).  ops: w = one fiber_barrier_wait (the next round of
  * this fiber), y = fiber_yield between rounds.  Every fiber must have the same number of
- * `w` ops, otherwise the script itself would deadlock. */
+ * `w` ops, otherwise the script itself would deadlock.
+ * Optional 4th argument E > 0: the barrier is created for nfibers + E participants (e.g. E =
+ * 65536) although only nfibers fibers ever arrive: NOBODY may pass.  The main fiber waits until
+ * every script fiber is inside its first wait, keeps yielding for a while, and ends the run
+ * (status OK) with all of them still parked; a fiber that returns is reported by the monitor,
+ * which is told the requested count. */
 #include "rtcommon.h"
 #include "fiber_barrier.h"
 
 static fiber_barrier_t bar;
 static int round_of[VH_MAXF];
+static volatile int inside_wait;
 
 static void do_op(int t, const char* op) {
   switch (op[0]) {
     case 'w': {
       int k = ++round_of[t];
       vr_note("call wait %d", k);
+      inside_wait++;
       int r = fiber_barrier_wait(&bar);
+      inside_wait--;
       vr_note("ret wait %d %d", k, r == FIBER_BARRIER_SERIAL_FIBER ? 1 : 0);
       break;
     }
@@ -41,11 +49,12 @@ VH_NOINSTR int main(int argc, char** argv) {
   /* init must not rely on zeroed storage (a barrier on the stack / in recycled memory) */
   memset(&bar, 0xAB, sizeof bar);
   __asm__ __volatile__("" : : "r"(&bar) : "memory");
-  fiber_barrier_init(&bar, (uint32_t)vh_script.nfibers);
+  const unsigned long extra = argc > 4 ? strtoul(argv[4], 0, 10) : 0;
+  fiber_barrier_init(&bar, (uint32_t)(vh_script.nfibers + extra));
   /* a long-lived barrier: optionally start `counter` at a multiple of count just below
    * 2^32 (as after that many arrivals), so the 32-bit boundary is crossed within the run */
   unsigned long long base = argc > 3 ? strtoull(argv[3], 0, 10) : 0;
-  base -= base % (2ull * (unsigned long long)vh_script.nfibers); /* keep round parity (queue choice) aligned */
+  base -= base % (2ull * (unsigned long long)(vh_script.nfibers + extra)); /* keep round parity (queue choice) aligned */
   if (argc > 3) bar.counter = base; /* otherwise keep exactly what fiber_barrier_init left */
   vr_reg(&bar.counter, sizeof bar.counter, "counter");
   /* the waiter queue(s): one in the code as it is; a candidate fix may have two (parity) */
@@ -66,7 +75,28 @@ VH_NOINSTR int main(int argc, char** argv) {
       vr_reg(&q[i].tail->data, 8, "S%d.data", i);
     }
   }
-  vr_note("init barrier %d %d %d %d %llu", vh_script.nfibers, nq, rounds, k, base);
+  vr_note("init barrier %lu %d %d %d %llu", vh_script.nfibers + extra, nq, rounds, k, base);
+  if (extra) {
+    /* more participants announced than exist: nobody may ever pass */
+    vh_do_op = do_op;
+    vh_rt_prepare();
+    for (int t = 0; t < vh_script.nfibers; t++) {
+      vh_fibers[t] = fiber_create_no_sched(65536, vh_fiber_main, (void*)(long)t);
+      vh_reg_fiber(vh_fibers[t], t);
+      fiber_detach(vh_fibers[t]);
+    }
+    vr_note("spawn %d", vh_script.nfibers);
+    for (int t = 0; t < vh_script.nfibers; t++) fiber_manager_schedule(fiber_manager_get(), vh_fibers[t]);
+    int settled = 0;
+    for (long i = 0; i < 20000 && settled < 60; i++) {
+      fiber_yield();
+      vr_relax();
+      settled = (inside_wait == vh_script.nfibers && vh_done_count == 0) ? settled + 1 : 0;
+      if (vh_done_count) break; /* somebody got through: the monitor has the `ret wait` */
+    }
+    vr_set_done();
+    vr_finish("OK");
+  }
   vh_rt_run(k, do_op, 0);
   vr_finish("OK");
 }
